@@ -13,6 +13,8 @@
 #include <string>
 #include <vector>
 
+#include "hooks.hpp"
+
 struct AllocEvent {
   char kind;       // 'A' allocate, 'F' deallocate, 'R' reallocate
   int alloc;       // allocator instance
